@@ -29,8 +29,11 @@ fn safe_join(root: &Path, rel: &str) -> Option<PathBuf> {
 }
 
 fn tmp_of(dst: &Path) -> PathBuf {
+    // Per-process staging name: every client has its own server process on the same
+    // root, and staging happens OUTSIDE the commit lock. With one shared name two
+    // overlapping Puts to the same path wrote into (and committed) each other's inode.
     let mut s = dst.as_os_str().to_owned();
-    s.push(".copia-tmp");
+    s.push(format!(".{}.copia-tmp", std::process::id()));
     PathBuf::from(s)
 }
 
